@@ -3,8 +3,9 @@ use nom::branch::alt;
 use nom::bytes::complete::tag;
 use nom::character::complete::char;
 use nom::combinator::{map, opt};
+use nom::character::complete::digit0;
 use nom::multi::many1;
-use nom::number::complete::double;
+use nom::sequence::preceded;
 use nom::IResult;
 
 // Constants representing time units in nanoseconds
@@ -32,13 +33,31 @@ const MICROSECOND: u128 = 1_000;
 /// - `1ns` parses as 1 nanosecond
 /// - `1.5ns` parses as 1 nanosecond (sub-nanosecond durations not supported)
 pub fn parse_duration(i: &str) -> IResult<&str, Duration> {
+    let start = i;
     let (i, neg) = opt(parse_negative)(i)?;
     if i == "0" {
         return Ok(("", Duration::zero()));
     }
-    let (i, duration) = many1(parse_number_unit)(i)
-        .map(|(i, d)| (i, d.iter().fold(Duration::zero(), |acc, next| acc + *next)))?;
-    Ok((i, duration * if neg.is_some() { -1 } else { 1 }))
+    let (i, terms) = many1(parse_number_unit)(i)?;
+    // Sum the magnitudes exactly; the result has to fit 64-bit nanoseconds.
+    let limit = i64::MAX as u128 + if neg.is_some() { 1 } else { 0 };
+    let mut total: u128 = 0;
+    for term in terms {
+        total = total.saturating_add(term);
+        if total > limit {
+            return Err(out_of_range(start));
+        }
+    }
+    let nanos = if neg.is_some() {
+        (total as i128).wrapping_neg() as i64
+    } else {
+        total as i64
+    };
+    Ok((i, Duration::nanoseconds(nanos)))
+}
+
+fn out_of_range(i: &str) -> nom::Err<nom::error::Error<&str>> {
+    nom::Err::Failure(nom::error::Error::new(i, nom::error::ErrorKind::TooLarge))
 }
 
 enum Unit {
@@ -63,11 +82,38 @@ impl Unit {
     }
 }
 
-fn parse_number_unit(i: &str) -> IResult<&str, Duration> {
-    let (i, num) = double(i)?;
+/// Parses one `<decimal number><unit>` term into its magnitude in nanoseconds. The number is
+/// `digits [ "." digits ]` or `"." digits` (no sign, no exponent) and is converted exactly;
+/// a fraction below one nanosecond is dropped.
+fn parse_number_unit(i: &str) -> IResult<&str, u128> {
+    let start = i;
+    let (i, int_part) = digit0(i)?;
+    let (i, frac_part) = opt(preceded(char('.'), digit0))(i)?;
+    let frac_part = frac_part.unwrap_or("");
+    if int_part.is_empty() && frac_part.is_empty() {
+        return Err(nom::Err::Error(nom::error::Error::new(
+            start,
+            nom::error::ErrorKind::Digit,
+        )));
+    }
     let (i, unit) = parse_unit(i)?;
-    let duration = to_duration(num, unit);
-    Ok((i, duration))
+    let unit = unit.nanos() as u128;
+
+    let mut whole: u128 = 0;
+    for digit in int_part.bytes() {
+        whole = whole * 10 + (digit - b'0') as u128;
+        if whole > u64::MAX as u128 {
+            return Err(out_of_range(start));
+        }
+    }
+    // 18 fractional digits are far below one nanosecond for every unit
+    let mut frac: u128 = 0;
+    let mut scale: u128 = 1;
+    for digit in frac_part.bytes().take(18) {
+        frac = frac * 10 + (digit - b'0') as u128;
+        scale *= 10;
+    }
+    Ok((i, whole * unit + frac * unit / scale))
 }
 
 fn parse_negative(i: &str) -> IResult<&str, ()> {
@@ -87,10 +133,6 @@ fn parse_unit(i: &str) -> IResult<&str, Unit> {
         map(char('m'), |_| Unit::Minute),
         map(char('s'), |_| Unit::Second),
     ))(i)
-}
-
-fn to_duration(num: f64, unit: Unit) -> Duration {
-    Duration::nanoseconds((num * unit.nanos() as f64).trunc() as i64)
 }
 
 /// Formats a [`Duration`] into a string. String returns a string representing the
